@@ -59,6 +59,31 @@ func generate(w *mon.W) {
 			do(Print(gen.Wide(kind, n), Layout{Mode: 0}).Src, nil)
 		}
 	}
+	// results named by `as` and read back by joins: every placement of the
+	// `as` (directly before the join, one operator earlier, inside the right
+	// side), bare and continued right-hand sides, once and twice
+	for _, pre := range []string{"", "| where a > 1 ", "| project k, a ", "| summarize n = count() by k "} {
+		for _, mid := range []string{"", "| where k > 0 ", "| take 5 "} {
+			for _, kind := range []string{"", "kind=inner ", "kind=leftouter ", "kind=innerunique "} {
+				for _, right := range []string{"B", "B | where k < 9", "B | as C", "U | as C | join (B) on k", "U | join " + kind + "(B) on k"} {
+					for _, post := range []string{"", " | count", " | join " + kind + "(B) on k", " | as D | join (D) on k"} {
+						do("T "+pre+"| as B "+mid+"| join "+kind+"("+right+") on k"+post, nil)
+					}
+				}
+			}
+		}
+	}
+	// every spelling of a signed let value under every signed / indexed use
+	{
+		vals := []string{"5", "-5", "+5", "(-5)", "((-5))", "(+5)", "-(5)", "(-(5))", "- -5", "-(-5)", "1-5", "(1-5)", "-5+1", "-0x10", "(-0x8000000000000000)", "-.5", "(-1e3)", "-n0", "(-n0)", "- - -5"}
+		uses := []string{"n", "-n", "+n", "- -n", "-(n)", "(-n)", "-(-n)", "n[1]", "-n[1]", "(n)[1]", "1 - -n", "1--n", "n-n", "-n-n", "- n * - n", "x[-n]", "f(-n)", "-n in (-n, n)", "not(-n == n)", "iff(-n > 0, -n, n)"}
+		for _, v := range vals {
+			for _, u := range uses {
+				do("let n0 = -1; let n = "+v+"; T | where x > "+u+" | take 3", nil)
+				do("let n0 = 2; let n = "+v+"; let m = "+u+"; T | extend y = -m | sort by -m", nil)
+			}
+		}
+	}
 	rng := gen.RNG(w.Seed, "c05")
 	// typed expression programs
 	n := w.Pick(6_000, 200_000)
@@ -117,24 +142,39 @@ func generate(w *mon.W) {
 	w.Count("sql_shapes_per_worker_sum", int64(len(shapes)))
 }
 
-// tablesAndCalls lists table names, `as` names and pass-through function
-// names of a parsed program.
-func inventory(stmts []parser.Statement) (tables, asNames, calls []string) {
+// inventory lists table names, `as` names and pass-through function names of
+// a parsed program; selfNamed reports an `as` whose name is that of a table
+// read at or before it (a result named like its own input is not judged).
+func inventory(stmts []parser.Statement) (tables, asNames, calls []string, selfNamed bool) {
+	type at struct {
+		name string
+		pos  int
+	}
+	var tabs, ases []at
 	for _, st := range stmts {
 		for _, n := range Reach(st) {
 			switch x := n.Node.(type) {
 			case *parser.TableRef:
 				if x.Table != nil {
 					tables = append(tables, x.Table.Name)
+					tabs = append(tabs, at{x.Table.Name, x.Table.NameSpan.Start})
 				}
 			case *parser.AsOperator:
 				if x.Name != nil {
 					asNames = append(asNames, x.Name.Name)
+					ases = append(ases, at{x.Name.Name, x.Name.NameSpan.Start})
 				}
 			case *parser.CallExpr:
 				if x.Func != nil && !builtins[x.Func.Name] {
 					calls = append(calls, x.Func.Name)
 				}
+			}
+		}
+	}
+	for _, a := range ases {
+		for _, t := range tabs {
+			if t.name == a.name && t.pos < a.pos {
+				selfNamed = true
 			}
 		}
 	}
@@ -159,7 +199,7 @@ func Check(c *Case, r *mon.R, shapes map[string]bool) bool {
 		r.Inconclusive("foreign_parse")
 		return false
 	}
-	tables, asNames, calls := inventory(stmts)
+	tables, asNames, calls, selfNamed := inventory(stmts)
 	for _, f := range calls {
 		if sqlmini.IsReserved(f) || !plainIdent.MatchString(f) {
 			r.Inconclusive("skipped_function_name_is_sql_syntax")
@@ -167,11 +207,8 @@ func Check(c *Case, r *mon.R, shapes map[string]bool) bool {
 		}
 	}
 	seen := map[string]bool{}
-	for _, t := range tables {
-		seen[t] = true
-	}
 	for _, a := range asNames {
-		if seen[a] || strings.HasPrefix(a, "__subquery") {
+		if selfNamed || seen[a] || strings.HasPrefix(a, "__subquery") {
 			r.Inconclusive("skipped_as_name_collision")
 			return false
 		}
